@@ -10,8 +10,14 @@
 // minimum (own equality elimination + branch & bound over the exact LP of /verif/ref, cross-checked
 // by brute force in a window).
 //
-// Solves under PIVOT_ROW_STRATEGY_MAX_COLUMN run in a forked child (CPU-time alarm): a sanitizer
-// death or a hang of that strategy becomes a violation key without killing the worker.
+// All solves of a case run in ONE forked child (a new child only for what is left after a death), with a
+// CPU-time alarm re-armed per strategy: a sanitizer death or a loop without abandonment checkpoint becomes a
+// violation key (C07.crash.<max_column|pivot_first>:<class>, C07.hang.<...>) without killing the worker.
+// PIVOT_ROW_STRATEGY_MAX_COLUMN must be sandboxed (Tableau::is_better_pivot reads past the row end / never ends);
+// the pinned tree also dies under PIVOT_ROW_STRATEGY_FIRST on incremental re-solves, and one fork per case costs
+// nothing measurable, so the default sandboxes those too; `--kv inproc=1` keeps them in process.
+// Other options: --kv alarm=<cpu s per strategy, 5>  --kv budget=<weight per solve, 2e7>  --kv maxcol=0
+// Profiles: default (C07), alias (copy/assign/swap check in every case), ascii (dump/load round trip in every case).
 #include "pplx.hh"
 #include <sys/types.h>
 #include <sys/wait.h>
@@ -432,7 +438,7 @@ static std::string dump(const PIP_Problem& p) { std::ostringstream o; p.ascii_du
 
 struct Runner {
   const std::vector<Stage>& st; const std::vector<StageRef>& ref; const Plan& plan; int strat; Put put;
-  Runner(const std::vector<Stage>& s, const std::vector<StageRef>& r, const Plan& p, int sg, Put pt) : st(s), ref(r), plan(p), strat(sg), put(pt) {}
+  Runner(const std::vector<Stage>& s, const std::vector<StageRef>& r, const Plan& p, int sg, Put pt, bool child = false) : st(s), ref(r), plan(p), strat(sg), put(pt), in_child(child) {}
   void finding(const std::string& key, const std::string& detail) { put("F\t" + esc(key) + "\t" + esc(detail)); }
   void counter(const std::string& name, unsigned long n = 1) { put("C\t" + name + "\t" + std::to_string(n)); }
 
@@ -561,10 +567,12 @@ struct Runner {
     int sl = -1, sp = -1; if (!guarded_solve(l, sl, "loaded")) return;
     SolveOut sol; observe(l, si, false, sl, sol, false);
     SolveOut mine;
-    if (base) mine = *base; else { PIP_Problem c(p); if (!guarded_solve(c, sp, "pending_copy")) return; observe(c, si, false, sp, mine, false); }
+    PIP_Problem c(p);       // the twin of the loaded object goes through exactly the same calls (solve, add_constraint, solve)
+    if (!guarded_solve(c, sp, "twin_copy")) return;
+    if (base) mine = *base; else observe(c, si, false, sp, mine, false);
     if (!same_walks(mine, sol, why, R, S)) { finding(std::string("C15.pip.loaded_tree_differs") + (solved ? "" : ":pending"), "(" + why + "): " + S.text()); return; }
-    // lock-step: same further constraint on the loaded object and on a copy of the original
-    PIP_Problem c(p); c.add_constraint(to_ppl(plan.extra_by_stage[si])); l.add_constraint(to_ppl(plan.extra_by_stage[si]));
+    // lock-step: same further constraint on the loaded object and on the twin
+    c.add_constraint(to_ppl(plan.extra_by_stage[si])); l.add_constraint(to_ppl(plan.extra_by_stage[si]));
     int s1 = -1, s2 = -1; if (!guarded_solve(c, s1, "lockstep") || !guarded_solve(l, s2, "lockstep")) return;
     counter("c15.lockstep_checks");
     const PIP_Tree_Node* rc = c.solution(); const PIP_Tree_Node* rl = l.solution();
@@ -573,7 +581,23 @@ struct Runner {
     if (dump(c) != dump(l)) counter("c15.lockstep_text_diverged");
   }
 
+  // reach counters of the hooks in /repo live in the process that ran the code: a child reports its own
+  bool in_child;
+  void emit_reach(const std::vector<unsigned long>& before) {
+#ifdef BUGSENG_PPL_VERIF
+    namespace V = Parma_Polyhedra_Library::Implementation::Verif;
+    if (in_child) for (int i = 0; i < V::PPL_VR_COUNT; ++i) if (V::reach[i] > before[i]) counter(std::string("reach.") + V::reach_names[i], V::reach[i] - before[i]);
+#endif
+  }
   void run() {
+    std::vector<unsigned long> before;
+#ifdef BUGSENG_PPL_VERIF
+    { namespace V = Parma_Polyhedra_Library::Implementation::Verif; before.assign(V::reach, V::reach + V::PPL_VR_COUNT); }
+#endif
+    run_history();
+    emit_reach(before);
+  }
+  void run_history() {
     PIP_Problem* P = 0;
     struct Del { PIP_Problem*& p; ~Del() { delete p; } } del = { P };
     try {
@@ -899,7 +923,7 @@ static void run_case(uint64_t) {
   while (!forked.empty()) {        // one child for the whole group; a new child for what is left after a death
     ChildEnd end; hx::count("child.forks");
     { std::string names; for (size_t g = 0; g < forked.size(); ++g) names += (g ? ", " : "") + strat_name(forked[g]); hx::tr(" || in a forked child, same history: " + names); }
-    size_t died = run_group_in_child(forked, [&](int s, const Put& put) { Runner r(st, ref, plan, s, put); r.run(); }, out, end, (int) hx::opt().geti("alarm", 5));
+    size_t died = run_group_in_child(forked, [&](int s, const Put& put) { Runner r(st, ref, plan, s, put, true); r.run(); }, out, end, (int) hx::opt().geti("alarm", 5));
     if (died >= forked.size()) break;
     int s = forked[died]; const std::string site = s >= 3 ? "max_column" : "pivot_first";
     size_t done = out[s].solves.size(); const Stage& at = st.back();
